@@ -288,13 +288,13 @@ func (b *faultyBackend) maybe() {
 		panic("backend rejects this call")
 	}
 }
-func (b *faultyBackend) Register(metrics.Metadata)  {}
-func (b *faultyBackend) Increment(string)           { b.maybe() }
-func (b *faultyBackend) Gauge(string, float64)      { b.maybe() }
-func (b *faultyBackend) Count(string, int64)        { b.maybe() }
-func (b *faultyBackend) Histogram(string, float64)  {}
-func (b *faultyBackend) Up(string)                  { b.maybe() }
-func (b *faultyBackend) Down(string)                { b.maybe() }
+func (b *faultyBackend) Register(metrics.Metadata) {}
+func (b *faultyBackend) Increment(string)          { b.maybe() }
+func (b *faultyBackend) Gauge(string, float64)     { b.maybe() }
+func (b *faultyBackend) Count(string, int64)       { b.maybe() }
+func (b *faultyBackend) Histogram(string, float64) {}
+func (b *faultyBackend) Up(string)                 { b.maybe() }
+func (b *faultyBackend) Down(string)               { b.maybe() }
 
 type mIn struct {
 	op   string
